@@ -3,7 +3,7 @@ CONFIG = {
     "coq_dirs": ["theories/Outputs"],
     "coq_targets": ["theories/Outputs/Properties.vo", "theories/Outputs/Corr.vo"],
     "properties_files": ["theories/Outputs/Properties.v"],
-    "required_theorems": ["escape_rejected"],
+    "required_theorems": ["accepted_iff_inside", "escape_rejected", "parents_exist", "tree_wellformed", "outputs_exact"],
     "harnesses": [
         {"cmd": "outputs", "cases_quick": 400, "cases_thorough": 16000, "shards_quick": 8, "shards_thorough": 32},
     ],
